@@ -90,7 +90,7 @@ func c38(c *an.Check) {
 		c.Undecided("ORDER", "tptaddr/static.ParsePeerAddressMap", nil, "unresolved anchor")
 	} else {
 		var peers *ssa.MakeMap
-		for _, b := range pm.Blocks {
+		for _, b := range an.ScanBlocks(pm) {
 			for _, ins := range b.Instrs {
 				if mm, ok := ins.(*ssa.MakeMap); ok {
 					peers = mm
@@ -119,7 +119,7 @@ func c38(c *an.Check) {
 			}})
 		// normalisation: every list written back in the final loop went through sort.Strings then slices.Compact
 		okN, nW := false, 0
-		for _, b := range pm.Blocks {
+		for _, b := range an.ScanBlocks(pm) {
 			for _, ins := range b.Instrs {
 				mu, ok := ins.(*ssa.MapUpdate)
 				if !ok || mu.Map != ssa.Value(peers) {
